@@ -194,9 +194,13 @@ impl Lmdb {
         event: &Event,
         offset: u64,
     ) -> Result<(), Error> {
+        #[cfg(feature = "verif")]
+        crate::verif::point("y:index:i");
         // Index by id
         self.i_index.put(txn, event.id().as_slice(), &offset)?;
 
+        #[cfg(feature = "verif")]
+        crate::verif::point("y:index:ci");
         // Index by created_at and id
         self.ci_index.put(
             txn,
@@ -204,6 +208,8 @@ impl Lmdb {
             &offset,
         )?;
 
+        #[cfg(feature = "verif")]
+        crate::verif::point("y:index:akc");
         // Index by author and kind (with created_at and id)
         self.akc_index.put(
             txn,
@@ -211,6 +217,8 @@ impl Lmdb {
             &offset,
         )?;
 
+        #[cfg(feature = "verif")]
+        crate::verif::point("y:index:ac");
         self.ac_index.put(
             txn,
             &Self::key_ac_index(event.pubkey(), event.created_at(), event.id()),
@@ -222,6 +230,8 @@ impl Lmdb {
                 // FIXME make sure it is a letter too
                 if tagname.len() == 1 {
                     if let Some(tagvalue) = tsi.next() {
+                        #[cfg(feature = "verif")]
+                        crate::verif::point("y:index:tag");
                         // Index by tag (with created_at and id)
                         self.tc_index.put(
                             txn,
@@ -274,6 +284,8 @@ impl Lmdb {
                 // FIXME make sure it is a letter too
                 if tagname.len() == 1 {
                     if let Some(tagvalue) = tsi.next() {
+                        #[cfg(feature = "verif")]
+                        crate::verif::point("y:deindex:tag");
                         // Index by author and tag (with created_at and id)
                         let _ = self.atc_index.delete(
                             txn,
@@ -313,15 +325,21 @@ impl Lmdb {
             }
         }
 
+        #[cfg(feature = "verif")]
+        crate::verif::point("y:deindex:ac");
         let _ = self.ac_index.delete(
             txn,
             &Self::key_ac_index(event.pubkey(), event.created_at(), event.id()),
         )?;
 
+        #[cfg(feature = "verif")]
+        crate::verif::point("y:deindex:ci");
         let _ = self
             .ci_index
             .delete(txn, &Self::key_ci_index(event.created_at(), event.id()))?;
 
+        #[cfg(feature = "verif")]
+        crate::verif::point("y:deindex:akc");
         let _ = self.akc_index.delete(
             txn,
             &Self::key_akc_index(event.pubkey(), event.kind(), event.created_at(), event.id()),
@@ -335,19 +353,27 @@ impl Lmdb {
     }
 
     pub(crate) fn deindex_id(&self, txn: &mut RwTxn<'_>, id: Id) -> Result<(), Error> {
+        #[cfg(feature = "verif")]
+        crate::verif::point("y:deindex:i");
         let _ = self.i_index.delete(txn, id.as_slice())?;
         Ok(())
     }
 
     pub(crate) fn get_offset_by_id(&self, txn: &RoTxn<'_>, id: Id) -> Result<Option<u64>, Error> {
+        #[cfg(feature = "verif")]
+        crate::verif::point("y:lmdb:get_offset_by_id");
         Ok(self.i_index.get(txn, id.as_slice())?)
     }
 
     pub(crate) fn is_deleted(&self, txn: &RoTxn<'_>, id: Id) -> Result<bool, Error> {
+        #[cfg(feature = "verif")]
+        crate::verif::point("y:lmdb:is_deleted");
         Ok(self.deleted_ids.get(txn, id.as_slice())?.is_some())
     }
 
     pub(crate) fn mark_deleted(&self, txn: &mut RwTxn<'_>, id: Id) -> Result<(), Error> {
+        #[cfg(feature = "verif")]
+        crate::verif::point("y:lmdb:mark_deleted");
         self.deleted_ids.put(txn, id.as_slice(), &())?;
         Ok(())
     }
@@ -359,12 +385,16 @@ impl Lmdb {
         when: Time,
     ) -> Result<(), Error> {
         let key = Self::key_naddr_index(addr);
+        #[cfg(feature = "verif")]
+        crate::verif::point("y:lmdb:mark_naddr_deleted");
         // A deletion request that arrives late must not move the deletion time backwards
         if let Some(existing) = self.deleted_naddrs.get(txn, &key)? {
             if existing >= when.as_u64() {
                 return Ok(());
             }
         }
+        #[cfg(feature = "verif")]
+        crate::verif::point("y:lmdb:mark_naddr_deleted:put");
         self.deleted_naddrs.put(txn, &key, &when.as_u64())?;
         Ok(())
     }
@@ -375,6 +405,8 @@ impl Lmdb {
         addr: &Addr,
     ) -> Result<Option<Time>, Error> {
         let key = Self::key_naddr_index(addr);
+        #[cfg(feature = "verif")]
+        crate::verif::point("y:lmdb:when_is_naddr_deleted");
         Ok(self.deleted_naddrs.get(txn, &key)?.map(Time::from_u64))
     }
 
@@ -417,6 +449,8 @@ impl Lmdb {
         &'a self,
         txn: &'a RoTxn,
     ) -> Result<RoIter<'a, Bytes, U64<NativeEndian>>, Error> {
+        #[cfg(feature = "verif")]
+        crate::verif::point("y:iter:i");
         Ok(self.i_index.iter(txn)?)
     }
 
@@ -432,6 +466,8 @@ impl Lmdb {
             Bound::Included(&*start_prefix),
             Bound::Included(&*end_prefix),
         );
+        #[cfg(feature = "verif")]
+        crate::verif::point("y:iter:ci");
         Ok(self.ci_index.range(txn, &range)?)
     }
 
@@ -454,6 +490,8 @@ impl Lmdb {
             Bound::Included(&*start_prefix),
             Bound::Included(&*end_prefix),
         );
+        #[cfg(feature = "verif")]
+        crate::verif::point("y:iter:tc");
         Ok(self.tc_index.range(txn, &range)?)
     }
 
@@ -470,6 +508,8 @@ impl Lmdb {
             Bound::Included(&*start_prefix),
             Bound::Included(&*end_prefix),
         );
+        #[cfg(feature = "verif")]
+        crate::verif::point("y:iter:ac");
         Ok(self.ac_index.range(txn, &range)?)
     }
 
@@ -487,6 +527,8 @@ impl Lmdb {
             Bound::Included(&*start_prefix),
             Bound::Included(&*end_prefix),
         );
+        #[cfg(feature = "verif")]
+        crate::verif::point("y:iter:akc");
         Ok(self.akc_index.range(txn, &range)?)
     }
 
@@ -511,6 +553,8 @@ impl Lmdb {
             Bound::Included(&*start_prefix),
             Bound::Included(&*end_prefix),
         );
+        #[cfg(feature = "verif")]
+        crate::verif::point("y:iter:atc");
         Ok(self.atc_index.range(txn, &range)?)
     }
 
@@ -535,6 +579,8 @@ impl Lmdb {
             Bound::Included(&*start_prefix),
             Bound::Included(&*end_prefix),
         );
+        #[cfg(feature = "verif")]
+        crate::verif::point("y:iter:ktc");
         Ok(self.ktc_index.range(txn, &range)?)
     }
 
